@@ -31,6 +31,7 @@ type GhostAssign struct {
 }
 
 type LoopSpec struct {
+	FullCut    bool // "loop k cut": paths end at the loop head; one continuation starts from the invariant alone
 	Invariants []*Clause
 	Decreases  *Clause
 	Ghost      []*GhostAssign // executed on the back edge, before the invariant is re-checked
@@ -63,6 +64,8 @@ type Contract struct {
 	Atomics      map[int][]*atomicAnn // annotations of the k-th sync/atomic call (source order): ghost updates and asserts
 	Assumes      []*Clause            // "assume[label] E": assumed when the body is verified, NOT checked at call sites (listed in evidence)
 	StepOp       bool                 // "step-op": in thread-modular mode a call to this function is one atomic step (even if it only reads shared state)
+	Drains       bool                 // "drains": the function may only return after a channel receive reported the channel closed
+	ModArgs      bool                 // "modifies-args": memory reachable through pointer/slice arguments is havocked as well (external functions)
 	CallHavoc    []callHavoc          // "call <callee> havoc items": at these call sites the callee is abstracted to a havoc of the items (trusted)
 	AtCall       []atCallGhost        // "at-call <callee-key> lhs := rhs": ghost assignment executed just before matching calls
 	Recv         []*chanClause        // "recv v assume E": every channel receive yields a value v satisfying E
@@ -163,7 +166,7 @@ func NewContractDB() *ContractDB {
 }
 
 var clauseKeywords = map[string]bool{"func": true, "props": true, "trusted": true, "inline": true, "noinline": true, "pure-call": true,
-	"requires": true, "ensures": true, "modifies": true, "assume": true, "call": true, "step-op": true, "mode": true, "atomic": true, "shared": true, "inv": true, "rely": true, "lock": true, "use!": true, "at-call": true, "recv": true, "send": true, "loop": true, "ghost-exit": true, "ghost-pre": true, "use": true, "ghost": true,
+	"requires": true, "ensures": true, "modifies": true, "assume": true, "call": true, "step-op": true, "drains": true, "modifies-args": true, "mode": true, "atomic": true, "shared": true, "inv": true, "rely": true, "lock": true, "use!": true, "at-call": true, "recv": true, "send": true, "loop": true, "ghost-exit": true, "ghost-pre": true, "use": true, "ghost": true,
 	"pure": true, "ufun": true, "axiom": true, "lemma": true, "callback-field": true, "callback-type": true,
 	"bounded": true, "nopanic": true, "note": true, "end": true, "params": true, "results": true}
 
@@ -604,6 +607,10 @@ func (db *ContractDB) LoadFile(path string, raw bool) error {
 				cur.Uses = append(cur.Uses, strings.Fields(strings.ReplaceAll(l.rest, ",", " "))...)
 			case "step-op":
 				cur.StepOp = true
+			case "drains":
+				cur.Drains = true
+			case "modifies-args":
+				cur.ModArgs = true
 			case "at-call":
 				f := strings.SplitN(l.rest, " ", 2)
 				if len(f) < 2 {
@@ -774,8 +781,11 @@ func (db *ContractDB) LoadFile(path string, raw bool) error {
 				}
 			case "loop":
 				f := strings.SplitN(l.rest, " ", 3)
+				if len(f) == 2 && f[1] == "cut" {
+					f = append(f, "")
+				}
 				if len(f) < 3 {
-					db.errf(l, "expected: loop k invariant|decreases|ghost ...")
+					db.errf(l, "expected: loop k invariant|decreases|ghost|cut ...")
 					continue
 				}
 				k, err := strconv.Atoi(f[0])
@@ -797,6 +807,8 @@ func (db *ContractDB) LoadFile(path string, raw bool) error {
 				l2 := l
 				l2.rest = rest
 				switch kw2 {
+				case "cut":
+					ls.FullCut = true
 				case "invariant":
 					if c := mkClause(l2); c != nil {
 						ls.Invariants = append(ls.Invariants, c)
